@@ -2023,3 +2023,23 @@ def scenarios_generic_nested(seed, n, op='from_data'):
         expect = 'accept' if isinstance(leaf, ok) and not (arg == 'bool' and type(leaf) is not bool) else 'reject'
         out.append({'id': f'gn{seed}:{i}', 'decl': ge.decl, 'op': op, 'ty': ty, 'val': wire, 'spell': 0, 'stream': 'generic-nested', 'expect': expect})
     return out
+
+
+def scenarios_bcast(seed, n):
+    """C13: shapes (zero-length axes, unit axes, different ranks, up to three shapes) for the array-shape conditions and the
+    broadcasting helpers, with and without numpy"""
+    g = random.Random(seed)
+    out = []
+    small = [[a] for a in (0, 1, 2, 3)] + [[a, b] for a in (0, 1, 2) for b in (0, 1, 2, 3)] + [[]]
+    k = 0
+    for a in small:          # every pair of small shapes, exhaustively
+        for b in small:
+            k += 1
+            out.append({'id': f'bc:{k}', 'op': 'bcast', 'shapes': [a, b], 'stream': 'bcast-pairs'})
+    for i in range(n):
+        r = random.Random(g.randrange(1 << 62))
+        shapes = [[r.choice([0, 1, 1, 2, 3, 5]) for _ in range(r.randint(0, 4))] for _ in range(r.randint(1, 3))]
+        if r.random() < 0.3 and len(shapes) >= 2:
+            shapes[1] = list(shapes[0])
+        out.append({'id': f'bc{seed}:{i}', 'op': 'bcast', 'shapes': shapes, 'stream': 'bcast'})
+    return out
